@@ -204,10 +204,13 @@ Proof. vm_compute. split; reflexivity. Qed.
    word operators, `not` and `not in`, brackets, quoted strings with the escapes \\ \q \a \b \f \n \r \t \v
    \xHH) and puts the white-space run `gap L i` chosen by the layout L in front of token i (`inner L i`
    between the words of `not in`, `dquote L i` chooses the quote character); `parse_text` is parser.Parse on
-   a source text (Lex/Lexer.v `lex`, then `parse`).  The theorems are stated up to node locations
-   (`erase_loc`; the locations of the parsed tree are the positions of the anchor tokens in the text, see
-   C11_lexer_layout), for EVERY unicode oracle (uni_letter/uni_digit/uni_space = unicode.IsLetter/IsDigit/
-   IsSpace on code points >= 128), every float oracle and every formatter. *)
+   a source text (Lex/Lexer.v `lex`, then `parse`).  The theorems are stated UP TO NODE LOCATIONS
+   (`erase_loc`): C11_lexer_layout gives the position of every token of the text and C11_roundtrip says that
+   node locations are the locations of the anchor tokens, but the two are not combined into one statement
+   about the locations of the tree parsed from the text (C11_text_example_computed shows computed ones).
+   Everything holds for EVERY unicode oracle (uni_letter/uni_digit/uni_space = unicode.IsLetter/IsDigit/
+   IsSpace on code points >= 128), every float/regexp oracle and every number formatter.  White space in the
+   layouts is space, tab, LF, CR, VT, FF (`ascii_ws`); white space >= U+0080 is not covered. *)
 Require Import X.Lex.Lexer X.Lex.LexProofs X.Parse.Render X.Parse.TextProofs.
 
 (* 5a. the lexer on every layout of spellable tokens (C12_positions extended to `not` and `not in`):
@@ -234,6 +237,17 @@ Theorem C11_text_tokens : forall (uni_letter uni_digit uni_space : Z -> bool) (g
   erase_result (parse g o toks).
 Proof. exact text_tokens. Qed.
 Print Assumptions C11_text_tokens.
+
+(* ... and ANY spelling of a token sequence (`items`: white-space run and spelling per token — every number
+   spelling, strings with either quote and any supported escape, `not in` with any number of spaces) parses
+   like the sequence it spells (`xtoken`: kind and value of the spelled token) *)
+Theorem C11_text_any_spelling : forall (uni_letter uni_digit uni_space : Z -> bool) (g : grammar) (o : oracles)
+    (items : list (list Z * xtok)) (trail : list Z),
+  layoutx_ok uni_letter uni_digit uni_space items trail = true ->
+  erase_result (parse_text uni_letter uni_digit uni_space g o (layoutx items trail)) =
+  parse g o (map (fun it => xtoken (snd it)) items ++ [mkTok noloc TkEOF ""])%list.
+Proof. exact text_items. Qed.
+Print Assumptions C11_text_any_spelling.
 
 Theorem C11_whitespace_irrelevant_tokens : forall (uni_letter uni_digit uni_space : Z -> bool) (g : grammar) (o : oracles) (L1 L2 : layout) (toks : list token),
   layout_good uni_letter uni_digit uni_space L1 toks = true -> layout_good uni_letter uni_digit uni_space L2 toks = true ->
@@ -277,6 +291,18 @@ Theorem C11_text_roundtrip : forall (uni_letter uni_digit uni_space : Z -> bool)
              erase_loc t' = erase_loc t.
 Proof. exact (fun ul ud us o fi ff => text_roundtrip_tree ul ud us gen_grammar o fi ff gen_grammar_wf). Qed.
 Print Assumptions C11_text_roundtrip.
+
+(* in particular: any non-empty white-space run that starts with U+0020, the same between all tokens *)
+Theorem C11_text_roundtrip_uniform : forall (uni_letter uni_digit uni_space : Z -> bool) (o : oracles)
+    (fmt_int : Z -> string) (fmt_float : PrimFloat.float -> string) (c : poracle) (t : expr) (ws : list Z) (dq : bool),
+  printable gen_grammar fmt_int fmt_float o c t ->
+  tree_textable uni_letter uni_digit uni_space fmt_int fmt_float t = true ->
+  forallb ascii_ws ws = true -> ws <> [] -> hd_okb (fun c => c =? 32) ws = true ->
+  exists t', parse_text uni_letter uni_digit uni_space gen_grammar o
+               (render uni_letter uni_digit uni_space (uniform_layout ws dq) (print_any gen_grammar fmt_int fmt_float c t)) = ROk t' /\
+             erase_loc t' = erase_loc t.
+Proof. exact text_roundtrip_uniform. Qed.
+Print Assumptions C11_text_roundtrip_uniform.
 
 (* white space never changes the tree *)
 Theorem C11_whitespace_irrelevant : forall (uni_letter uni_digit uni_space : Z -> bool) (o : oracles)
@@ -335,13 +361,23 @@ Theorem C11_notin_carve_out_vacuous_without_notin : forall (toks : list token) (
 Proof. exact notin_spaced_absent. Qed.
 Print Assumptions C11_notin_carve_out_vacuous_without_notin.
 
+(* each clause of the carve-out is needed: a tab inside `not in`, a tab directly after it, are both rejected;
+   `in` alone accepts the tab *)
+Definition tab_after_layout : layout :=
+  mkLayout (fun i => match i with O => [] | 2%nat => [9] | S _ => [32] end) (fun _ => [32]) (fun _ => true).
+Definition in_witness : expr := EBinary ann0 BIn (EInt ann0 1) (EArray ann0 [EInt ann0 1]).
+
 Example C11_notin_tab_rejected :
   let nf := fun _ : Z => false in
   let toks := print_min gen_grammar dec (fun _ => "") notin_witness in
   utf8_encode (render nf nf nf space_layout toks) = "1 not in [ 1 ] " /\
   render nf nf nf tab_layout toks = [49; 32; 110; 111; 116; 9; 105; 110; 32; 91; 32; 49; 32; 93; 32] /\
+  render nf nf nf tab_after_layout toks = [49; 32; 110; 111; 116; 32; 105; 110; 9; 91; 32; 49; 32; 93; 32] /\
   parse_text nf nf nf gen_grammar notin_oracles (render nf nf nf tab_layout toks) = RErr (1, 2) /\
-  erase_result (parse_text nf nf nf gen_grammar notin_oracles (render nf nf nf space_layout toks)) = ROk (erase_loc notin_witness).
+  parse_text nf nf nf gen_grammar notin_oracles (render nf nf nf tab_after_layout toks) = RErr (1, 2) /\
+  erase_result (parse_text nf nf nf gen_grammar notin_oracles (render nf nf nf space_layout toks)) = ROk (erase_loc notin_witness) /\
+  erase_result (parse_text nf nf nf gen_grammar notin_oracles
+                  (render nf nf nf tab_after_layout (print_min gen_grammar dec (fun _ => "") in_witness))) = ROk (erase_loc in_witness).
 Proof. vm_compute. repeat split. Qed.
 
 (* ---- non-vacuity: unary, binary, conditional, function and method call, builtin with closure, array, map,
